@@ -140,10 +140,21 @@ def replay_bin(profile="dev"):
     """Build /verif/replay against the current tree (hooks enabled) and return the binary path."""
     wd = workdir()
     tdir = os.path.join(wd, "replay-target")
-    src = os.path.join(VERIF, "replay")
+    src0 = os.path.join(VERIF, "replay")
+    src = os.path.join(wd, "replay-src")
     binp = os.path.join(tdir, "debug" if profile == "dev" else "release", "rspirv-replay")
     with FileLock(os.path.join(wd, ".replay-%s.lock" % profile)):
         stamp = os.path.join(wd, ".replay-%s.stamp" % profile)
+        import kani as kanimod
+        ksrc = kanimod.prepare()
+        key0 = _dir_digest(src0) + _dir_digest(ksrc)
+        if not (os.path.exists(os.path.join(src, ".stamp")) and open(os.path.join(src, ".stamp")).read() == key0):
+            if os.path.exists(src):
+                shutil.rmtree(src)
+            shutil.copytree(src0, src, ignore=shutil.ignore_patterns("target", "Cargo.lock"))
+            ct = open(os.path.join(src, "Cargo.toml")).read().replace("/verif/kani", ksrc)
+            open(os.path.join(src, "Cargo.toml"), "w").write(ct)
+            open(os.path.join(src, ".stamp"), "w").write(key0)
         _write_generated(os.path.join(src, "src", "generated.rs"))
         key = _dir_digest(src)
         if os.path.exists(binp) and os.path.exists(stamp) and open(stamp).read() == key:
